@@ -366,8 +366,9 @@ def strip(case: dict) -> dict:
     return {k: v for k, v in case.items() if k not in ("noise",)}
 
 
-def diagnose(lab: Lab, case: dict, cfgs: dict) -> str:
-    """which single factor changes the output of this case (fresh process each, one factor varied)"""
+def diagnose(lab: Lab, case: dict, cfgs: dict, hints: list[dict] | None = None) -> str:
+    """which single factor changes the output of this case (fresh process each, one factor varied; `hints` are the
+    configurations of the processes that disagreed: their hash seed, listing order and cwd are tried, too)"""
     base_cwd = str(lab.root / "w" / "diag")
     runs = {
         "base": dict(seed=0, cwd=base_cwd, listing="sorted"),
@@ -375,12 +376,18 @@ def diagnose(lab: Lab, case: dict, cfgs: dict) -> str:
         "hashseed2": dict(seed=2, cwd=base_cwd, listing="sorted"),
         "cwd": dict(seed=0, cwd=str(lab.root / "w" / "diag" / "x" / "y"), listing="sorted"),
         "listing": dict(seed=0, cwd=base_cwd, listing="reverse"),
+        "listing2": dict(seed=0, cwd=base_cwd, listing="shuffle-2"),
+        "listing3": dict(seed=0, cwd=base_cwd, listing="shuffle-3"),
     }
+    for j, h in enumerate(hints or []):
+        runs[f"hashseed-h{j}"] = dict(seed=h["seed"], cwd=base_cwd, listing="sorted")
+        runs[f"listing-h{j}"] = dict(seed=0, cwd=base_cwd, listing=h["listing"])
+        runs[f"cwd-h{j}"] = dict(seed=0, cwd=h["cwd"], listing="sorted")
     res = dict(zip(runs, pmap(lambda kw: lab.run("diag", [strip(case)], **kw), list(runs.values()))))
     base = outcome(res["base"].get("results", {}).get(case["id"]))
-    for f in ("hashseed", "hashseed2", "listing", "cwd"):
-        if outcome(res[f].get("results", {}).get(case["id"])) != base:
-            return "hashseed" if f.startswith("hashseed") else f
+    for f in sorted(runs, key=lambda f: (["hashseed", "listing", "cwd"].index(f.rstrip("23").split("-")[0]) if f != "base" else -1, f)):
+        if f != "base" and outcome(res[f].get("results", {}).get(case["id"])) != base:
+            return f.rstrip("23").split("-")[0]
     return "history"
 
 
@@ -493,7 +500,7 @@ def campaign_differential(ck: Check, lab: Lab, n_cases: int, n_fresh: int, seeds
             camp.hit("further-mismatch-not-diagnosed")
             continue
         ck.notes["diagnosed"] = n_diag + 1
-        factor = diagnose(lab, c, cfgs)
+        factor = diagnose(lab, c, cfgs, [{k: cfgs[nm][k] for k in ("seed", "listing", "cwd")} for nm in (bad[0], ref_name)])
         cls = {"oracle": "differential", "entry": "generate", "factor": factor, "input": c["kind"], "same_basename": bool(c.get("same_basename")),
                "input_file_type": c["input_file_type"], "mixed_types": bool(c.get("mixed_types"))}
         history = None
